@@ -205,8 +205,10 @@ class Check:
 
 # Build variants every check is also decided on (prefix of the rule ids, extra compiler flags).  NDEBUG: assert() is
 # compiled out, so nothing the analysis treats as "cannot happen" may be the only thing between an input and a violation.
-VARIANTS = [("ndebug.", ["-DNDEBUG"])]
-VARIANT_SKIP_QUICK = ("C08", "C16")     # the two expensive checks run their variants in the thorough tier only
+# uchar: plain char is unsigned on the ARM targets the library is written for (-funsigned-char); a table of `char` holding -1,
+# a `char` compared with EOF or a sign test on a byte change meaning there while the x86-64 test build is unaffected.
+VARIANTS = [("ndebug.", ["-DNDEBUG"]), ("uchar.", ["-funsigned-char"])]
+VARIANT_SKIP_QUICK = ()
 
 
 def run_check(pid, runner, tier, seed):
@@ -230,8 +232,10 @@ def run_check(pid, runner, tier, seed):
                         seen.add(x)
                         out.append(x)
                 setattr(chk, name, out)
-            chk.assumptions.append("every rule is decided twice: on the default build and with -DNDEBUG (rule ids prefixed 'ndebug.'), "
-                                   "so no verdict rests on an assert() that a release build compiles out")
+            chk.assumptions.append("every rule is decided on three builds: the default one, -DNDEBUG (rule ids prefixed 'ndebug.': no verdict "
+                                   "rests on an assert() that a release build compiles out) and -funsigned-char ('uchar.': plain char as on "
+                                   "the ARM targets); ILP32 targets (32-bit long and pointers) cannot be compiled in this sandbox and are "
+                                   "NOT covered")
     except AnalysisError as e:
         chk.rule_filter, chk.rule_prefix = None, ""     # an imported rule set may have been active: never filter this
         chk.unknown("analysis", "engine", str(e))
